@@ -83,6 +83,19 @@ def build_record(fields, style):
             base = nm
         assert pos == len(names)
         return getattr(MOD, base)
+    if how == "templ" and style.get("split"):
+        base = "std.Record[WArg]"
+        pos = 0
+        for gi, size in enumerate(style["split"]):
+            nm = "%s_%d" % (cname, gi)
+            part = list(zip(names, exprs))[pos:pos + size]
+            pos += size
+            src = "from __future__ import annotations\nclass %s(%s):\n" % (nm, base)
+            src += "".join("    %s: %s\n" % (n, e) for n, e in part) or "    pass\n"
+            exec(src, MOD.__dict__)
+            base = nm
+        assert pos == len(names)
+        return getattr(MOD, base)[style["w"]]
     if how == "templ":
         src = "from __future__ import annotations\nclass %s(std.Record[WArg]):\n" % cname
         src += "".join("    %s: %s\n" % (n, e) for n, e in zip(names, exprs)) or "    pass\n"
@@ -176,8 +189,18 @@ def build_value(t, v):
     if k == "rec":
         # std.Ref: the members are the objects built here (what Record._from_bits_ does itself); a by-value copy
         # of a std.Array member iterates it with Ref element access, which non-trivial element types refuse
-        return build_type(t)(**{"f%d" % i: build_value(ft, fv) for i, (ft, fv) in enumerate(zip(t[1], v))},
-                             _qualifier_=std.Ref)
+        items = [("f%d" % i, build_value(ft, fv)) for i, (ft, fv) in enumerate(zip(t[1], v))]
+        ctor = t[2].get("ctor", "kw")
+        n = len(items)
+        if ctor == "pos":
+            return build_type(t)(*[x for _, x in items], _qualifier_=std.Ref)
+        if ctor == "mix":
+            return build_type(t)(*[x for _, x in items[:n // 2]], **dict(reversed(items[n // 2:])), _qualifier_=std.Ref)
+        if ctor == "rev":
+            items = items[::-1]
+        elif ctor == "rot":
+            items = items[n // 2:] + items[:n // 2]
+        return build_type(t)(**dict(items), _qualifier_=std.Ref)
     if k == "enum":
         return build_type(t)(build_value(t[1], v), _unsafe_init=True)
     if k == "sfix":
